@@ -43,7 +43,7 @@ pub fn stream_text() -> BoxedStrategy<String> {
     prop_oneof![
         7 => prop::sample::select(vec![
             "", "a", "é", "x=é", "é=x", "💖", "日本", "a b", "=", "ßa", "aß", "1.0", "€uro", "x€", "\u{7ff}\u{800}\u{ffff}\u{10000}",
-            "\u{feff}", "\u{feff}x", "x\u{feff}y", "\\n", "trail ", "tab\t", " lead", " ", "a  b", "sha1 00", "x \t", "progress\rbar", "a\rb\rc", "\u{7f}del", "nul\u{0}byte",
+            "\u{feff}", "\u{feff}x", "x\u{feff}y", "\\n", "trail ", "tab\t", " lead", " ", "a  b", "sha1 00", "x \t", "progress\rbar", "a\rb\rc", "\u{fffd}", "x\u{fffd}y", "\u{fffe}", "\u{e000}", "\u{7f}del", "nul\u{0}byte",
             "pkg-1.0", "cat/pkg",
         ])
         .prop_map(String::from),
